@@ -783,6 +783,17 @@ pub struct Shadow {
     pub images_ok: u64,
 }
 
+/// A rectangle setter with a value at the top of the `u32` range (never in bounds: the largest canvas generated is far smaller).
+fn extreme_rect_op(rng: &mut Rng) -> SetOp {
+    let big = u32::MAX - rng.below(4) as u32;
+    match rng.below(4) {
+        0 => SetOp::Dim(big, rng.range(1, 4) as u32),
+        1 => SetOp::Dim(rng.range(1, 4) as u32, big),
+        2 => SetOp::Pos(big, 0),
+        _ => SetOp::Pos(0, big),
+    }
+}
+
 pub fn rect_set_ok(fc: &Option<Rect>, cw: u32, ch: u32, op: &SetOp) -> bool {
     let (w, h, x, y) = match fc {
         Some(r) => *r,
@@ -3269,11 +3280,13 @@ pub fn gen_session(rng: &mut Rng, cfg: &Cfg, sh: &mut Shadow, n_imgs: usize, fin
             }
         }
         if rect && animated && rng.chance(1, 2) {
-            let o = match rng.below(4) {
+            let o = match rng.below(5) {
                 0 => SetOp::Dim(rng.range(1, cfg.w as u64) as u32, rng.range(1, cfg.h as u64) as u32),
                 1 => SetOp::Pos(rng.below(cfg.w as u64) as u32, rng.below(cfg.h as u64) as u32),
                 2 => SetOp::ResetDim,
-                _ => SetOp::ResetPos,
+                3 => SetOp::ResetPos,
+                // values at the top of the u32 range: a bound check written as `offset + size > canvas` wraps or panics there
+                _ => extreme_rect_op(rng),
             };
             if rect_set_ok(&ss.sfc, cfg.w, cfg.h, &o) {
                 rect_apply(&mut ss.sfc, cfg.w, cfg.h, &o);
@@ -3328,11 +3341,12 @@ fn deco(rng: &mut Rng, cfg: &Cfg, sh: &mut Shadow, first_done: bool) -> Step {
                 }
                 5 => SetOp::ResetDim,
                 6 => SetOp::ResetPos,
-                _ => match rng.below(4) {
+                _ => match rng.below(6) {
                     0 => SetOp::Dim(0, 1),
                     1 => SetOp::Dim(1, 0),
                     2 => SetOp::Dim(cfg.w + 1, 1),
-                    _ => SetOp::Pos(cfg.w, 0),
+                    3 => SetOp::Pos(cfg.w, 0),
+                    _ => extreme_rect_op(rng),
                 },
             };
             if rect_set_ok(&sh.fc, cfg.w, cfg.h, &o) {
